@@ -243,7 +243,7 @@ func (d *binDecoder) value0(pos, limit int, overRule string, depth int, wrapped 
 		}
 		return nil, false, pos, bErr("bin.bool-bad-length", start, "bool with L=%d", l)
 	}
-	if t == 4 && l != 0 && l != 4 && l != 8 {
+	if t == 4 && l != 0 && l != 4 && l != 8 && l != 14 {
 		return nil, false, pos, bErr("bin.float-bad-length", start, "float with L=%d", l)
 	}
 
@@ -261,6 +261,14 @@ func (d *binDecoder) value0(pos, limit int, overRule string, depth int, wrapped 
 				return nil, false, pos, bErr("bin.ordered-struct-empty", start, "struct with L=1 and length 0")
 			}
 		}
+	}
+	if t == 4 && l == 14 {
+		// a float whose length is spelled with the VarUInt form: a length other than 0, 4 or 8 is certainly invalid; 0, 4 or
+		// 8 spelled this way is a non-minimal encoding the specification does not clearly rule out, so no verdict
+		if length != 0 && length != 4 && length != 8 {
+			return nil, false, pos, bErr("bin.float-bad-length", start, "float of length %d", length)
+		}
+		return nil, false, pos, bUnsure("bin.float-varuint-length", start, "float of length %d spelled with L=14", length)
 	}
 	if length > int64(limit-pos) {
 		return nil, false, pos, bErr(overRule, start, "value of length %d at %d extends past %d", length, start, limit)
